@@ -100,7 +100,19 @@ def run_impl(ops, direction='upload', nconn=3):
             add_conn()
         out = []
         k = 0
-        for kind, v in ops:
+        replaced = []     # limiter objects replaced by a limit change (newest first), as in Model.nstep
+        for op in ops:
+            kind, v = op[0], op[1]
+            if kind == 'S':
+                # an in-flight waiter polls the replaced limiter object number v at time op[2]
+                clock.ticks = op[2]
+                if v < len(replaced):
+                    old = replaced[v]
+                    g = poll(old)
+                    out.append((g, old.bucket, old.limit_bps, False, False))
+                else:
+                    out.append((0, 0, 0, False, False))
+                continue
             if kind == 'T':
                 clock.ticks = v
                 k += 1
@@ -110,6 +122,9 @@ def run_impl(ops, direction='upload', nconn=3):
                 g = poll(cur)
                 out.append((g, cur.bucket, cur.limit_bps, full, stale))
             else:
+                old = getattr(net, f'_{direction}_rate_limiter')
+                if isinstance(old, rl.LimitedRateLimiter):
+                    replaced.insert(0, old)
                 setter(v)
                 if len(conns) < 4:
                     add_conn()
@@ -142,6 +157,9 @@ def gen_ops(rng, n):
         r = rng.random()
         if r < 0.07:
             ops.append(('L', rng.choice(LIMITS + [0, 0])))
+        elif r < 0.14 and any(o[0] == 'L' for o in ops[1:]):
+            t += rng.choice([0, 1, 10485, 10485, 1048576])
+            ops.append(('S', rng.randrange(0, 3), t))
         else:
             if style == 'burst':
                 gap = rng.choice([0, 0, 0, 0, 1, 10485, 3 * 1048576 + 5])
@@ -163,7 +181,12 @@ def monitor(ops, obs):
     worst = None
     seg = []
     segs = []
-    for (kind, v), o in zip(ops, obs):
+    for op, o in zip(ops, obs):
+        kind, v = op[0], (op[2] if op[0] == 'S' else op[1])
+        if kind == 'S':
+            # polls of a replaced limiter object are generated as an over-approximation of in-flight
+            # waiters (compared with the model only); real in-flight waiters are measured in stack_run
+            continue
         if kind == 'L':
             if seg:
                 segs.append(seg)
@@ -213,15 +236,15 @@ def coq_cases(cases):
              'From Slsk Require Import C20.Model.', 'Import ListNotations.', 'Open Scope Z_scope.',
              'Definition eqp (a b : Z * Z) := andb (Z.eqb (fst a) (fst b)) (Z.eqb (snd a) (snd b)).',
              'Fixpoint eql (a b : list (Z*Z)) := match a, b with [] , [] => true | x::a, y::b => andb (eqp x y) (eql a b) | _, _ => false end.',
-             'Definition cases : list (nat * list op * list (Z*Z)) := [']
+             'Definition cases : list (nat * list nop * list (Z*Z)) := [']
     rows = []
     for idx, (ops, obs) in enumerate(cases):
-        o = listlit((f'Take {v}' if k == 'T' else f'SetLimit {v}') for k, v in ops)
+        o = listlit((f'NTake {op[1]}' if op[0] == 'T' else (f'NSet {op[1]}' if op[0] == 'L' else f'NTakeStale {op[1]}%nat {op[2]}')) for op in ops)
         e = listlit(f'({g},{b})' for g, b, *_ in obs)
         rows.append(f' ({idx}%nat, {o}, {e})')
     lines.append(';\n'.join(rows))
     lines.append('].')
-    lines.append('Definition bad := map (fun c => fst (fst c)) (filter (fun c => negb (eql (mrun None (snd (fst c))) (snd c))) cases).')
+    lines.append('Definition bad := map (fun c => fst (fst c)) (filter (fun c => negb (eql (nobs (mkNet None []) (snd (fst c))) (snd c))) cases).')
     lines.append('Eval vm_compute in bad.')
     return '\n'.join(lines) + '\n'
 
@@ -359,14 +382,16 @@ def run(run: Run):
             run.add_finding(Finding('impl-exception', f'limiter raised {type(e).__name__}: {e}', ops[:50]))
             continue
         grants = sum(1 for o in obs if o[0] > 0)
-        refus = sum(1 for (k, _), o in zip(ops, obs) if k == 'T' and o[0] == 0)
-        run.case(ops, nontrivial=grants > 0 and (refus > 0 or any(k == 'L' for k, _ in ops[1:])),
+        refus = sum(1 for o_, o in zip(ops, obs) if o_[0] == 'T' and o[0] == 0)
+        run.case(ops, nontrivial=grants > 0 and (refus > 0 or any(o_[0] == 'L' for o_ in ops[1:])),
                  kind=f'len<{(len(ops)//20+1)*20}')
-        run.count('polls', sum(1 for k, _ in ops if k == 'T'))
-        run.count('limit_changes', sum(1 for k, _ in ops if k == 'L'))
+        run.count('polls', sum(1 for o_ in ops if o_[0] == 'T'))
+        run.count('limit_changes', sum(1 for o_ in ops if o_[0] == 'L'))
         cases.append((ops, obs))
         # invariants of the property text on the implementation
-        for (k, v), o in zip(ops, obs):
+        run.count('stale_polls', sum(1 for o_ in ops if o_[0] == 'S'))
+        for op_, o in zip(ops, obs):
+            k = op_[0]
             if o[2] and not (0 <= o[1] <= o[2]):
                 run.add_finding(Finding('bucket-out-of-range', f'bucket {o[1]} outside [0, {o[2]}]', ops))
             if k == 'T' and o[2] == 0 and o[0] <= 0:
